@@ -63,9 +63,11 @@ def havA (F : Fn α) (p1 p2 : Pt α) : α :=
   let dLon2Sin := F.sin (dLon / 2)
   dLat2Sin * dLat2Sin + F.cos (deg2rad F p2.y) * F.cos (deg2rad F p1.y) * dLon2Sin * dLon2Sin
 
-/-- `geo.DistanceHaversine`. -/
+/-- `geo.DistanceHaversine`; `a = math.Min(a, 1)` guards against `a` rounding to `1 + ulp`
+    for (nearly) antipodal points (fix eb6ce31). -/
 def distanceHaversine (F : Fn α) (p1 p2 : Pt α) : α :=
   let a := havA F p1 p2
+  let a := F.min a 1
   2 * F.R * F.atan2 (F.sqrt a) (F.sqrt (1 - a))
 
 /-- `geo.Bearing`. -/
